@@ -1135,6 +1135,11 @@ class Executor:
             if v.kind == "gather":
                 return self.force_gather(st, v)
             return self.call(v.fn, v.args, v.kwargs, st, awaited=True)
+        if isinstance(v, Ref) and isinstance(st.heap.get(v.oid), Obj):
+            from pyvc import assumed
+            hook = assumed.AWAIT_HOOKS.get(st.heap[v.oid].cls)
+            if hook is not None:
+                return hook(self, st, v)
         raise Unsupported(f"await of a non-coroutine {v!r}")
 
     def e_Lambda(self, e: ast.Lambda, st: State) -> List[Res]:
